@@ -20,6 +20,11 @@ var (
 	// it was released by instrumented code.
 	VerifLockHook func(delta int)
 
+	// VerifUniq, if non-zero, replaces the wall-clock based start value of a
+	// node's unique id counter (references, aliases) so that minted ids are a
+	// function of the simulated run.
+	VerifUniq uint64
+
 	VerifDial   func(network, addr string) (net.Conn, error)
 	VerifListen func(network, addr string) (net.Listener, error)
 )
@@ -71,3 +76,5 @@ func VerifResetPools() {
 		},
 	}
 }
+
+func VerifUniqID() uint64 { return VerifUniq }
